@@ -168,7 +168,21 @@ class Data(abstract.Container):
 
         # Set the numpy array fill value
         if np.ma.isMA(array):
-            array.set_fill_value(self.get_fill_value(None))
+            fill_value = self.get_fill_value(None)
+            if fill_value is not None and np.ndim(fill_value):
+                # The fill value came from a vector-valued
+                # 'missing_value': use its first element, as the
+                # netCDF4 library does.
+                fill_value = np.ravel(fill_value)
+                fill_value = fill_value[0] if fill_value.size else None
+
+            try:
+                array.set_fill_value(fill_value)
+            except (TypeError, ValueError):
+                # The fill value can not be cast to the data type
+                # (e.g. a text-valued 'missing_value' on numeric
+                # data): keep the default numpy fill value.
+                pass
 
         return array
 
